@@ -980,3 +980,11 @@ func constString(v ssa.Value) (string, bool) {
 	}
 	return constant.StringVal(k), true
 }
+
+// constantInt extracts an int64 from a go/constant value of kind Int.
+func constantInt(k constant.Value) (int64, bool) {
+	if k == nil || k.Kind() != constant.Int {
+		return 0, false
+	}
+	return constant.Int64Val(k)
+}
